@@ -133,3 +133,63 @@ func VerifC16_HHmmVsTime() {
 	verifAssert(a.after(t) == specLexLess2(th, tm, h, m), "HHmm.after(time) agrees with (hour, minute) order")
 	verifReach("c16.hhmm.time")
 }
+
+// ---- DateTime.Before(instant): exactly when the date-time's whole second is the smaller of the two
+
+func c16Civil(tag string) (time.Time, [6]int) {
+	y, mo, d := nondetInt(tag+".y"), nondetInt(tag+".mo"), nondetInt(tag+".d")
+	h, mi, s := nondetInt(tag+".h"), nondetInt(tag+".mi"), nondetInt(tag+".s")
+	verifAssume(y >= 1970 && y <= 9999 && verifValidDate(y, mo, d) && h >= 0 && h <= 23 && mi >= 0 && mi <= 59 && s >= 0 && s <= 59)
+	return time.Date(y, time.Month(mo), d, h, mi, s, 0, time.Local), [6]int{y, mo, d, h, mi, s}
+}
+
+func specLexLess6(a, b [6]int) bool {
+	for i := 0; i < 6; i++ {
+		if a[i] != b[i] {
+			return a[i] < b[i]
+		}
+	}
+	return false
+}
+
+func VerifC16_DateTimeBefore() {
+	verifZone(1)
+	a, af := c16Civil("a")
+	b, bf := c16Civil("b")
+	ms := nondetInt("b.ms")
+	verifAssume(ms >= 0 && ms <= 999)
+	b = b.Add(time.Duration(ms) * time.Millisecond) // sub-second parts do not count
+	got := DateTime(a).Before(b)
+	verifObserve("before", got)
+	verifAssert(got == specLexLess6(af, bf), "DateTime.Before: exactly when its whole-second timestamp is the smaller of the two")
+	verifReach("c16.datetime.before")
+}
+
+// the same across a zone transition: two instants k1 and k2 seconds after a base time on the day of the
+// transition (inside an overlap the civil fields repeat; only the instants order them)
+func c16DateTimeZoned(iana bool) {
+	dg := nondetBytes("date.digits", 8)
+	for i := 0; i < 8; i++ {
+		verifAssume(dg[i] <= 9)
+	}
+	y := int(dg[0])*1000 + int(dg[1])*100 + int(dg[2])*10 + int(dg[3])
+	m := int(dg[4])*10 + int(dg[5])
+	d := int(dg[6])*10 + int(dg[7])
+	verifAssume(y >= 1970 && verifValidDate(y, m, d) && !(y == 9999 && m == 12 && d >= 29))
+	if iana {
+		verifZoneTable()
+	}
+	verifZoneAt(y, m, d)
+	base := time.Date(y, time.Month(m), d, 0, 0, 0, 0, time.Local)
+	k1, k2 := nondetInt("k1"), nondetInt("k2")
+	verifAssume(k1 >= 0 && k1 <= 86400 && k2 >= 0 && k2 <= 86400)
+	a := base.Add(time.Duration(k1) * time.Second)
+	b := base.Add(time.Duration(k2) * time.Second)
+	got := DateTime(a).Before(b)
+	verifObserve("before", got)
+	verifAssert(got == (k1 < k2), "DateTime.Before: agrees with the order of the instants on a day with a zone transition")
+	verifReach("c16.datetime.zoned")
+}
+
+func VerifC16_DateTimeBeforeZoned()      { c16DateTimeZoned(false) }
+func VerifC16_DateTimeBeforeZoned_IANA() { c16DateTimeZoned(true) }
